@@ -215,11 +215,13 @@ def one_request(game, hostname, disc, cls, conf):
         resp = game.simulation.apply_request(request, {})
         return {"skip": False, "bad": resp.status == "unreachable", "request": [str(x) for x in request],
                 "detail": f"answered {resp.status!r}: {resp.data}"}
-    except Exception:  # noqa: BLE001
-        return {"skip": False, "bad": False}  # totality is C01's subject; here only the routing verdict counts
+    except Exception as e:  # noqa: BLE001
+        # totality is C01's subject (bounded/action_total.py reports it); here only the routing verdict counts
+        return {"skip": False, "bad": False, "raised": f"{type(e).__name__}: {str(e)[:300]}", "request": [str(x) for x in request]}
 
 
-def main():
+def main(mode="routes"):
+    """mode 'routes': the answer is not 'unreachable' (C05).  mode 'total': answering the request raises nothing (C01)."""
     cases, uncovered = {}, set(AbstractAction._registry)
     for scen in SCENARIOS:
         cfg = load(scen)
@@ -238,9 +240,10 @@ def main():
                     cs = cases.setdefault(disc, {"name": disc, "checked": 0, "counterexample": None})
                     cs["checked"] += 1
                     uncovered.discard(disc)
-                    if res.get("bad") and cs["counterexample"] is None:
+                    bad = res.get("bad") if mode == "routes" else bool(res.get("raised"))
+                    if bad and cs["counterexample"] is None:
                         cs["counterexample"] = {"scenario": scen, "node": hostname, "action": disc, "parameters": conf,
-                                                "request": res.get("request"), "detail": res.get("detail")}
+                                                "request": res.get("request"), "detail": res.get("detail") if mode == "routes" else res.get("raised")}
     print(json.dumps({"checked": sum(c["checked"] for c in cases.values()), "cases": list(cases.values()),
                       "not_covered": sorted(uncovered)}))
     return 1 if any(c["counterexample"] for c in cases.values()) else 0
